@@ -95,6 +95,30 @@ CHECKS = {
         design_ref='DESIGN.md §5 C09',
         note='Trusted base: vf/reflex.py, vf/progen.py line-scope bookkeeping. Strings by value, comments modulo inner whitespace.',
         technique='runtime monitoring: differential token alignment (reference lexer) + mutation workload for the no-silent-loss clause'),
+    'C01': dict(
+        category='exploration',
+        text='The real minifier (library, `p8tool luamin`, `build --lua-minify`) runs on generated programs in random and pair-directed layouts; input and '
+             'output are aligned under the reference lexer (tokens, exact numeric and string values, name positions), line scopes and the stats token count '
+             'are checked. Coverage of ordered token-class adjacencies is measured against a committed table of 1817 grammatical pairs (gate >= 95%).',
+        design_ref='DESIGN.md §5 C01',
+        note='Trusted base: vf/reflex.py, vf/progen.py scopes, vf/data/adjacency.json (mined from the generator).',
+        technique='runtime monitoring: differential token alignment under a reference lexer, adjacency-coverage gate'),
+    'C02': dict(
+        category='exploration',
+        text='Offline trace monitor over aligned identifier occurrences of input and luamin output: the relation must be a function, injective over all '
+             'identifiers, identity on reserved/kept names, never generating a reserved name; programs reach ~3000 distinct identifiers; an icontract '
+             'postcondition on the real name factory runs alongside and 20k (thorough 500k) fresh names are enumerated through it.',
+        design_ref='DESIGN.md §5 C02',
+        note='Trusted base: vf/reflex.py alignment; API list = shipped PICO8_BUILTINS + hard-coded core.',
+        technique='runtime monitoring: offline relation checker over recorded rename events + icontract postcondition'),
+    'C19': dict(
+        category='exploration',
+        text='The real minifier runs on programs with every header shape; the output must start with the first two leading comments verbatim on their own '
+             'lines, yield the same title/byline (reference rule and picotool\'s get_title/get_byline), contain no other comment, and align token-for-token '
+             'with the input.',
+        design_ref='DESIGN.md §5 C19',
+        note='Trusted base: vf/reflex.py.',
+        technique='runtime monitoring: reference-lexer oracle on input/output pairs'),
 }
 
 NOT_BUILT = 'check not built yet in this session (design in DESIGN.md §5); not claimed until its monitor runs silent on the unchanged tree'
